@@ -55,7 +55,9 @@ func newMutexes() *mutexes {
 			// A lock was requested.
 			case key := <-m.acquire:
 				item := m.getItem(key)
+				verifTrace("acq", key, item.locks)
 				if item.locks == 0 {
+					verifTrace("tok", key, item.locks)
 					item.release <- struct{}{}
 				}
 				item.locks++
@@ -63,9 +65,11 @@ func newMutexes() *mutexes {
 			// A lock was released.
 			case key := <-m.release:
 				item := m.getItem(key)
+				verifTrace("rel", key, item.locks)
 				if item.locks > 0 { // Only release if locked.
 					item.locks--
 					if item.locks > 0 { // First lock was already released.
+						verifTrace("tok", key, item.locks)
 						item.release <- struct{}{}
 					}
 				}
@@ -77,6 +81,7 @@ func newMutexes() *mutexes {
 					if time.Since(item.lastAccess) > mutexStaleMutexes ||
 						len(m.items) > mutexMaxCacheSize && item.locks == 0 {
 						// Item is stale. Remove.
+						verifTrace("purge", key, item.locks)
 						delete(m.items, key)
 					}
 				}
